@@ -30,6 +30,8 @@ var errBoom = errors.New("boom")
 
 func boomArr(c *rt.Ctx, k int) [2]int { return [2]int{boom(c, k), 7} }
 
+func boomSlice(c *rt.Ctx, k int) []int { return []int{boom(c, k), 7} }
+
 func boomIter[T any](c *rt.Ctx, k int, it T) T { boom(c, k); return it }
 
 // boom panics with the value of kind k if the environment says so, and returns k otherwise
@@ -150,7 +152,7 @@ func panicText(id string, k int, pos string) string {
 		w(1, "}")
 	case "rangeslice":
 		w(1, "Yield(c.W(1, 1))")
-		w(1, "for range boomArr(c, %d)[:] {", k)
+		w(1, "for range boomSlice(c, %d) {", k)
 		w(2, "Yield(c.W(2, 0))")
 		w(1, "}")
 	case "yieldfromarg":
